@@ -25,6 +25,9 @@ func (e *exec) atCleanShutdown() {
 	if e.cfg.SnapCheck && !e.failed {
 		e.snapshotCheck(fmt.Sprintf("clean shutdown at op %d", e.opIdx))
 	}
+	if e.prop == "C15" && !e.failed {
+		e.walTruncationCheck(fmt.Sprintf("clean shutdown at op %d", e.opIdx))
+	}
 	if e.cfg.Damage && !e.failed {
 		e.logDamageCheck(e.dir, fmt.Sprintf("clean shutdown at op %d", e.opIdx))
 	}
